@@ -68,6 +68,8 @@ template <Kind K, class E, size_t SP, class Ctr> void regArr(const std::string& 
         if (!any) s += "-";
         CVIEW cv = x.to_mdspan();
         s += " dh=" + num(cv.data_handle() == x.data() && x.data() == x.container().data() && cv.mapping() == x.mapping());
+        s += " fw=" + num(x.is_unique() == x.mapping().is_unique() && x.is_exhaustive() == x.mapping().is_exhaustive() && x.is_strided() == x.mapping().is_strided() &&
+                          ARR::is_always_unique() == M::is_always_unique() && ARR::is_always_exhaustive() == M::is_always_exhaustive() && ARR::is_always_strided() == M::is_always_strided());
         emit(s); continue;
       }
       if (c == "ov") {
